@@ -452,7 +452,9 @@ func (c *controlConn) HandleError(conn *Conn, err error, closed bool) {
 		return
 	}
 
-	c.reconnect()
+	// The caller may be the ring refresher itself (a refresh whose query on this connection
+	// failed): reconnect ends with Session.refreshRing(), which waits for that very goroutine.
+	go c.reconnect()
 }
 
 func (c *controlConn) getConn() *connHost {
